@@ -227,26 +227,6 @@ def gen_case(r, name, tier, directed=None):
 
 # ------------------------------------------------------------------ recorded call -> call kind of the model
 
-def call_kind(text, out, privid):
-    """model call kind (text for `drv c07`) of an executed op; None = not checked"""
-    w = text.split()
-    rc = out.split()[0] if out else "?"
-    k = w[0]
-    if rc in ("skip", "nodb", "bad-op"):
-        return None
-
-    def dbid(name):
-        return privid.get(name) if name.startswith("p") else int(name)
-    if k in ("put", "del", "mset"):
-        d = dbid(w[1])
-        sync = "1" if (k == "put" and len(w) > 4 and int(w[4]) & 4 and rc == "ok") else "0"
-        return None if d is None else "writer %d %s" % (d, sync)
-    if k in ("get", "mget"):
-        d = dbid(w[1])
-        return None if d is None else "reader %d" % d
-    return k
-
-
 def check_events(r, wal):
     """[(kind line, tokens, (tid, idx))] for every executed op of a run"""
     out = []
